@@ -7,6 +7,7 @@ import (
 
 	"github.com/golang/groupcache/lru"
 	"github.com/vicanso/pike/cache"
+	"github.com/vicanso/pike/config"
 	"github.com/vicanso/pike/store"
 )
 
@@ -40,7 +41,13 @@ func residentCount(d interface{}) (n int, ok bool) {
 		if !isLRU {
 			return 0, false
 		}
-		n += lc.Len()
+		// entries the shard holds in memory: its recency list and its table must agree (a table that keeps keys
+		// the list has dropped still holds their entries)
+		ln := lc.Len()
+		if tbl := reflect.ValueOf(lc).Elem().FieldByName("cache"); tbl.IsValid() && tbl.Kind() == reflect.Map && tbl.Len() > ln {
+			ln = tbl.Len()
+		}
+		n += ln
 	}
 	return n, true
 }
@@ -78,7 +85,14 @@ func suiteDisp(r *rng, n int) {
 			}
 			caches[i] = c
 		}
-		ds := cache.NewDispatchers(opts)
+		// through the configuration path, as main.update does: an empty configuration first (every cache of the
+		// previous sequence is dropped), then the two caches of this sequence
+		var ccfg []config.CacheConfig
+		for _, o := range opts {
+			ccfg = append(ccfg, config.CacheConfig{Name: o.Name, Size: o.Size, HitForPass: "300s", Store: o.Store})
+		}
+		cache.ResetDispatchers(nil)
+		cache.ResetDispatchers(ccfg)
 		ws := "0"
 		if withStore {
 			ws = "1"
@@ -115,9 +129,20 @@ func suiteDisp(r *rng, n int) {
 			key := keyOf(ki)
 			kb := []byte(key)
 			h := cache.MemHash(kb)
+			if cr.chance(1) {
+				// a reload that names the same caches with other sizes: a cache that survives keeps its dispatcher,
+				// entries and original size (a size change needs the cache to be removed and added again)
+				var other []config.CacheConfig
+				for _, cc := range ccfg {
+					cc.Size = 1 + cc.Size/3
+					other = append(other, cc)
+				}
+				cache.ResetDispatchers(other)
+				stat("reload-other-sizes")
+			}
 			switch x := cr.intn(100); {
 			case x < 86:
-				d := ds.Get(c.name)
+				d := cache.GetDispatcher(c.name)
 				hc := d.GetHTTPCache(kb)
 				idx, known := c.seen[hc]
 				created := 0
@@ -129,7 +154,7 @@ func suiteDisp(r *rng, n int) {
 				}
 				// some of the new entries start a fetch that is still in flight when they become the shard's oldest
 				// key: eviction treats them like any other entry
-				if created == 1 && cr.chance(35) {
+				if created == 1 && cr.chance(35) && hc.GetStatus() == cache.StatusUnknown {
 					hc.Get()
 					stat("get-fetch-started")
 				}
@@ -151,7 +176,7 @@ func suiteDisp(r *rng, n int) {
 				case 3:
 					name = "nosuch"
 				}
-				ds.RemoveHTTPCache(name, kb)
+				cache.RemoveHTTPCache(name, kb)
 				has := ""
 				for _, cc := range caches {
 					if cc.store == nil {
@@ -172,7 +197,7 @@ func suiteDisp(r *rng, n int) {
 			}
 		}
 		for _, c := range caches {
-			cnt, ok := residentCount(ds.Get(c.name))
+			cnt, ok := residentCount(cache.GetDispatcher(c.name))
 			if !ok {
 				cnt = -1
 				stat("count-unavailable")
